@@ -12,10 +12,12 @@ correspondence: (1) ValueObj::into_bytes (harness) vs extracted model writer, by
 judge:          coq/Marshal/Spec.v (extracted): judge_writer (python's own loads result is the intended value),
                 judge_read_back, judge_no_crash
 """
+import sys
 import tempfile
 from lib.vplib import *
 from checks.c15_tab import gen_tab, TabError
 
+sys.setrecursionlimit(30000)   # canonical forms of the depth-limit cases nest 4000 lists deep
 FX = int(os.environ.get("C15_FX", "1"))   # state of the model the implementation is compared with: 1 = current code (after the fix: commits)
 VERS = ["3.7", "3.8", "3.9", "3.10", "3.11"]
 MAGIC = {"3.7": 3394, "3.8": 3413, "3.9": 3425, "3.10": 3439, "3.11": 3495}
@@ -38,10 +40,10 @@ REGISTRY = dict(
 
 PROGRAMS = [
     "x = 1\nprint! x\n",
-    "x = 2147483648\ny = 18446744073709551615\nprint! x, y, -0.0, 1e308, \"héllo\", \"😀\"\n",
+    "x = 2147483648\ny = 18446744073709551615\nprint! x, y, -0.0, 1.5e300, \"héllo\", \"😀\"\n",
     "f(a: Int, b: Int): Int = a + b * 2\nprint! f(3, 4)\nl = [1, 2, 3]\nprint! l\n",
     "add x: Int = (y: Int) -> x + y\ng = add 3\nprint! g(4)\n",
-    "C = Class {a = Int; b = Str}\nC.\n    show self = self.b\nc = C.new {a = 1; b = \"s\"}\nprint! c.show()\n",
+    "C = Class {.a = Int; .b = Str}\nC.\n    show self = self.b\nc = C.new {.a = 1; .b = \"s\"}\nprint! c.show()\n",
     "i = !0\nwhile! do! i < 3, do!:\n    i.inc!()\nprint! i, {\"a\": 1}, (1, \"t\", None)\n",
     "p! x: Int, y := 2 =\n    print! x + y\np! 1\np! 1, y := 5\nfor! 0..<3, i =>\n    print! i\n",
 ]
@@ -310,7 +312,7 @@ def malformed_py_stream(rng, n):
                 ds = ds[:-1]
             cnt = nd & 0xFFFFFFFF
             if rng.random() < 0.05:
-                cnt = rng.choice([0x80000000, 0x7FFFFFFF, 0xFFFFFFFF])
+                cnt = rng.choice([0x80000000, 0xFFFFFFFF, 0xFFFFFFFE])   # never a huge positive count: CPython allocates it first
             return [108 | flag] + list(cnt.to_bytes(4, "little")) + ds
         if k < 0.48:
             return [103 | flag] + [rng.randint(0, 255) for _ in range(8)]
@@ -336,7 +338,9 @@ def malformed_py_stream(rng, n):
                 return [41 | flag, max(0, m + rng.choice([0, 0, 0, 1, -1]))] + items
             cnt = (m + rng.choice([0, 0, 0, 1, -1, -5])) & 0xFFFFFFFF
             return [40 | flag] + list(cnt.to_bytes(4, "little")) + items
-        return [rng.randint(0, 255)] + [rng.randint(0, 255) for _ in range(rng.randint(0, 4))]
+        # any type code, followed by a small or negative count (a huge positive one makes CPython allocate gigabytes)
+        return [rng.randint(0, 255)] + rng.choice([[], [rng.randint(0, 3)], [rng.randint(0, 3), 0, 0, 0], [255, 255, 255, 255],
+                                                    [rng.randint(0, 3), 0, 0, 0] + [rng.randint(0, 255) for _ in range(rng.randint(0, 6))]])
 
     for _ in range(n):
         b = atom(3)
@@ -543,7 +547,7 @@ def _run(ctx, proof, h, model, erg, acc, rng, vers, work):
             variants.append((label, what, False, b))
     for label, data in corpus_files:
         variants.append((label, "corpus", False, data))
-    for d in [MAX_DEPTH - 3, MAX_DEPTH - 2, MAX_DEPTH - 1, MAX_DEPTH, 1000, 20000]:
+    for d in [MAX_DEPTH - 3, MAX_DEPTH - 2, MAX_DEPTH - 1, MAX_DEPTH, 1000] + ([20000] if FX else []):
         # a 3.11 file whose code object has the nest as its only constant
         body = [0xE3] + [0] * 20 + [0x73, 0, 0, 0, 0] + [41, 1] + nest(d) + [41, 0] + [41, 0] + [0x73, 0, 0, 0, 0] + \
                [0xFA, 1, 97] + [0xDA, 1, 98] + [0xDA, 1, 98] + [1, 0, 0, 0] + [0x73, 0, 0, 0, 0] + [0x73, 0, 0, 0, 0]
@@ -617,6 +621,7 @@ def _run(ctx, proof, h, model, erg, acc, rng, vers, work):
 
 def verdict(ctx, proof, acc):
     ctx.cov["disagreements"] = len(acc.disagree)
+    ctx.cov["disagreement_samples"] = [{"what": d[0], "case": d[1], "impl": d[2], "model": d[3]} for d in acc.disagree[:5]]
     if proof.ok and not acc.disagree and not acc.judge_fail:
         return
     # the judges have already been applied to every case of this run (disagreeing or not): report what they found
